@@ -1,6 +1,7 @@
 import Mav.Gen.MsgsAll
 import Mav.Gen.Consts
 import Mav.Proofs.SortLink
+import Mav.Proofs.LayoutLink
 /-
   C03 — payload layout, sizes and CRC_EXTRA. Property theorems only.
   `layoutAgrees st` (Mav/Model/MsgCheck.lean) says: the MODEL of `ReadWriter.Initialize` accepts `st`, `st` is in the
@@ -24,6 +25,51 @@ theorem names_table (t : Gen.FType) : Gen.fieldTypeString t = Spec.Msg.tyName t 
 theorem wire_order_universal (st : Msg.GoStruct) (rw : Msg.RW) (d : Spec.Msg.SDef)
     (h1 : Msg.init st = .ok rw) (h2 : Spec.Msg.ofGo st = some d) :
     rw.fields.map (·.index) = (Spec.Msg.wireOrder d).map (·.idx) := SortLink.wire_order_agrees st rw d h1 h2
+
+/-- identifiers of the struct are exported Go identifiers: the type name after `Message` and every field name that is not
+    overridden by a `mavname` tag begin with a letter A-Z (decidable form of `LayoutLink.firstUpper` / `nameOk`) -/
+def firstUpperB (s : String) : Bool := match s.toList with | c :: _ => Msg.isUpper c | [] => false
+
+def exportedB (st : Msg.GoStruct) : Bool :=
+  firstUpperB (st.name.drop 7).toString && st.fields.all (fun f => f.mavname != "" || firstUpperB f.goName)
+
+theorem firstUpper_of_B (s : String) (h : firstUpperB s = true) : LayoutLink.firstUpper s := by
+  unfold firstUpperB at h
+  cases hs : s.toList with
+  | nil => rw [hs] at h; cases h
+  | cons c r => rw [hs] at h; exact ⟨c, r, hs, h⟩
+
+/-- **C03 (sizes and CRC_EXTRA, for every struct).** Whenever `Initialize` accepts a struct, the struct is a MAVLink definition in
+    the specification's sense (`Spec.Msg.ofGo`: name `Message…`, extensions after the base fields, array lengths 1..255, at most
+    255 bytes) and its identifiers are exported, then the field order, the base and the extended payload size and the CRC_EXTRA
+    the model of `Initialize` computes — byte-wide size arithmetic, `sort.Slice` comparator, X25 over the run-time's name
+    conversion — are exactly those the serialization guide derives from the definition. No enumeration: any struct, any number
+    of fields. -/
+theorem layout_universal (st : Msg.GoStruct) (rw : Msg.RW) (d : Spec.Msg.SDef)
+    (h1 : Msg.init st = .ok rw) (h2 : Spec.Msg.ofGo st = some d) (hx : exportedB st = true) :
+    rw.fields.map (·.index) = (Spec.Msg.wireOrder d).map (·.idx) ∧
+    rw.sizeNormal.toNat = Spec.Msg.sizeBase d ∧ rw.sizeExtended.toNat = Spec.Msg.sizeExt d ∧
+    rw.crcExtra.toNat = Spec.Msg.crcExtra d := by
+  unfold exportedB at hx
+  simp only [Bool.and_eq_true, List.all_eq_true, Bool.or_eq_true, bne_iff_ne, ne_eq] at hx
+  have hn : ∀ f ∈ st.fields, LayoutLink.nameOk f := by
+    intro f hf hm
+    cases hx.2 f hf with
+    | inl h => exact absurd hm h
+    | inr h => exact firstUpper_of_B _ h
+  have hs := LayoutLink.sizes_universal st rw d h1 h2 hn
+  exact ⟨SortLink.wire_order_agrees st rw d h1 h2, hs.2, hs.1,
+    LayoutLink.crc_universal st rw d h1 h2 hn (firstUpper_of_B _ hx.1)⟩
+
+/-- the hypotheses are satisfiable: the standard heartbeat meets all three -/
+example : (Msg.init Gen.m_minimal_MessageHeartbeat).toOption.isSome = true ∧
+    (Spec.Msg.ofGo Gen.m_minimal_MessageHeartbeat).isSome = true ∧ exportedB Gen.m_minimal_MessageHeartbeat = true := by
+  set_option maxRecDepth 100000 in decide +kernel
+
+/-- why `exportedB` is needed: the run-time's conversion drops the first character of an identifier that does not begin with a
+    capital letter (`regexp ([A-Z]) → _$1`, then `[1:]`), the documented convention does not — an unexported field is outside the
+    property's domain (reflection cannot set it) -/
+example : Msg.fieldGoToDef "fooBar" = "oo_bar" ∧ Spec.Msg.snakeLower "fooBar" = "foo_bar" := by decide
 
 /-- without "extensions after base fields" the comparator of the Go code is not transitive (a base field declared after an
     extension): the result of `sort.Slice` would be unspecified; the specification's domain excludes such structs -/
